@@ -48,7 +48,12 @@ def check(model, tier):
 
     _sqlemit.r_identifier_agreement(ctx, "R08.14")
     sqlplace.r11_3_emission(ctx, rule="R08.16")
-    sqlplace.r_refusals_only_where_needed(ctx, "R08.17")  # ORDER BY / LIMIT emission incl. the logical-column hooks of engine subclasses
+    sqlplace.r_refusals_only_where_needed(ctx, "R08.17")
+    from ..rules import processor as _processor
+
+    _processor.r07_8_materialize_as(ctx, rule="R08.18")  # a node persisted twice under one name is rejected by the database
+    _processor.r07_11_operands_processed(ctx, rule="R08.19")  # ORDER BY / LIMIT emission incl. the logical-column hooks of engine subclasses
+    _sqlemit.r_select_never_empty(ctx, "R08.20")
     _sqlemit.r02_2_join_payload(ctx, rule="R08.15")  # every column a join predicate may use is in the mapping it is converted against
     from ..rules import purity, structure
     from .common import SQL_ENGINE
